@@ -52,6 +52,17 @@ func implC20(a []string, emitz bool) string {
 	if err := w.genProto(ro); err != nil {
 		return "protoerr"
 	}
+	if len(text)%2 == 1 || locName == "Local" || locName == "" {
+		// an earlier conversion of the same books under ANOTHER location, in this process: what "Local" (or any name)
+		// means afterwards is what it meant before
+		warm := ro
+		warm.LocationName = []string{"Asia/Kolkata", "America/St_Johns", "Pacific/Auckland"}[len(text)%3]
+		saved := w.Conf
+		w.Conf = filepath.Join(w.Root, "warm")
+		os.MkdirAll(w.Conf, 0o755)
+		_ = w.genConf(warm)
+		w.Conf = saved
+	}
 	if err := w.genConf(ro); err != nil {
 		return "err"
 	}
